@@ -67,6 +67,7 @@ def prepare(tier):  # pylint: disable=unused-argument
     workload.pools()
     sweep_list()
     field_list()
+    wrap_table()
     return {'phase': 'explore'}
 
 
@@ -89,13 +90,26 @@ def _generate(rng, index, tier, extra):  # pylint: disable=unused-argument
         path, hexdata = field_list()[index]
         return {'kind': 'sweep', 'cls': path, 'hex': hexdata, 'fields': True}
     roll = rng.random()
+    if roll < 0.14 and wrap_table():
+        wrapper, path = rng.choice(wrap_table())
+        raw = rng.choice(corpus.accepted_plus(path))
+        faults = wirefault.gen_faults(rng, raw) if rng.random() < 0.85 else []
+        if wirefault.is_text(raw) and rng.random() < 0.4:
+            faults = wirefault.token_faults(rng, raw)
+        return {'kind': 'wrapped', 'wrapper': wrapper, 'inner': path, 'hex': raw.hex(), 'faults': faults}
     if roll < 0.72:
         paths = corpus.class_paths()
         path = rng.choice(paths)
-        seeds = corpus.accepted(path)
+        seeds = corpus.accepted_plus(path)
         bad = corpus.rejected(path)
         raw = rng.choice(bad) if bad and (not seeds or rng.random() < 0.25) else rng.choice(seeds)
-        faults = wirefault.gen_faults(rng, raw, framer_name=None)
+        if rng.random() < 0.08:
+            # cross-feed: a valid message of a sibling class (same module) given to this class
+            module = path.rsplit('.', 1)[0]
+            siblings = [p for p in paths if p.startswith(module + '.') and p != path and corpus.accepted(p)]
+            if siblings:
+                raw = rng.choice(corpus.accepted(rng.choice(siblings)))
+        faults = wirefault.gen_faults(rng, raw, framer_name=None) if rng.random() < 0.9 else []
         if rng.random() < 0.25:
             faults += wirefault.text_faults(rng, raw)
         if wirefault.is_text(raw) and rng.random() < 0.35:
@@ -120,9 +134,90 @@ def _generate(rng, index, tier, extra):  # pylint: disable=unused-argument
             'cuts': cuts, 'sender_discards': discards}
 
 
+# mutated item -> bytes of an enclosing message (the item's own length fields are left as the faults made them)
+def _u(n, size):
+    return (n % (1 << (8 * size))).to_bytes(size, 'big')
+
+
+def _wrap_ext_list(inner):
+    return _u(len(inner), 2) + inner
+
+
+def _wrap_client_hello(inner):
+    body = b'\x03\x03' + bytes(32) + b'\x00' + b'\x00\x02\x00\x2f' + b'\x01\x00' + _u(len(inner), 2) + inner
+    return b'\x01' + _u(len(body), 3) + body
+
+
+def _wrap_server_hello(inner):
+    body = b'\x03\x03' + bytes(32) + b'\x00' + b'\x00\x2f' + b'\x00' + _u(len(inner), 2) + inner
+    return b'\x02' + _u(len(body), 3) + body
+
+
+def _wrap_dh_reply(inner):
+    return b'\x1f' + _u(len(inner), 4) + inner + _u(2, 4) + b'ab' + _u(2, 4) + b'cd'
+
+
+def _wrap_header_block(inner):
+    return inner + b'\r\n\r\n'
+
+
+def _wrap_spf(inner):
+    return b'v=spf1 ' + inner + b' -all'
+
+
+def _wrap_csp(inner):
+    return b"default-src 'self'; " + inner
+
+
+def _wrap_sct_list(inner):
+    return _u(len(inner), 2) + inner
+
+
+WRAPPERS = (
+    # (wrapper name, container class path, function, predicate on the inner class path)
+    ('ext-list-client', 'cryptoparser.tls.extension.TlsExtensionsClient', _wrap_ext_list,
+     lambda p: '.tls.extension.TlsExtension' in p and not p.endswith(('sClient', 'sServer', 'Factory')) and not p.endswith('Server')),
+    ('client-hello', 'cryptoparser.tls.subprotocol.TlsHandshakeClientHello', _wrap_client_hello,
+     lambda p: '.tls.extension.TlsExtension' in p and not p.endswith(('sClient', 'sServer', 'Factory')) and not p.endswith('Server')),
+    ('ext-list-server', 'cryptoparser.tls.extension.TlsExtensionsServer', _wrap_ext_list,
+     lambda p: '.tls.extension.TlsExtension' in p and not p.endswith(('sClient', 'sServer', 'Factory')) and not p.endswith('Client')),
+    ('server-hello', 'cryptoparser.tls.subprotocol.TlsHandshakeServerHello', _wrap_server_hello,
+     lambda p: '.tls.extension.TlsExtension' in p and not p.endswith(('sClient', 'sServer', 'Factory')) and not p.endswith('Client')),
+    ('dh-reply', 'cryptoparser.ssh.subprotocol.SshDHKeyExchangeReply', _wrap_dh_reply,
+     lambda p: '.ssh.key.SshHost' in p or p.endswith(('SshX509Certificate', 'SshX509CertificateChain'))),
+    ('header-block', 'cryptoparser.httpx.header.HttpHeaderFields', _wrap_header_block,
+     lambda p: '.httpx.header.HttpHeaderField' in p and 'Value' not in p and not p.endswith('Fields')),
+    ('spf-record', 'cryptoparser.dnsrec.txt.DnsRecordTxtValueSpf', _wrap_spf,
+     lambda p: 'SpfDirective' in p or 'SpfModifier' in p),
+    ('csp-value', 'cryptoparser.httpx.header.HttpHeaderFieldValueContentSecurityPolicy', _wrap_csp,
+     lambda p: 'ContentSecurityPolicyDirective' in p and not p.endswith(('Type', 'Variant'))),
+    ('sct-list', 'cryptoparser.common.x509.SignedCertificateTimestampList', _wrap_sct_list,
+     lambda p: p.endswith('.SignedCertificateTimestamp')),
+)
+_WRAP_TABLE = None
+
+
+def wrap_table():
+    """[(wrapper index, inner class path)] for inner classes that have accepted seeds."""
+    global _WRAP_TABLE  # pylint: disable=global-statement
+    if _WRAP_TABLE is None:
+        table = []
+        for index, (_, container, _, predicate) in enumerate(WRAPPERS):
+            if corpus.resolve(container) is None:
+                continue
+            for path in corpus.class_paths():
+                if predicate(path) and corpus.accepted(path):
+                    table.append((index, path))
+        _WRAP_TABLE = table
+    return _WRAP_TABLE
+
+
 def execute(doc):
     res = core.Result()
     kind = doc['kind']
+    if kind == 'wrapped':
+        _exec_wrapped(doc, res)
+        return res
     if kind == 'sweep':
         _exec_sweep(doc, res)
     elif kind == 'dgram':
@@ -179,6 +274,23 @@ def _exec_sweep(doc, res):
     res.stats['sweep.seeds'] += 1
     res.sched_sig = ('sweep', doc['cls'], doc['hex'][:16], len(raw))
     res.nontrivial = len(raw) > 0
+
+
+def _exec_wrapped(doc, res):
+    """A faulted item inside its enclosing message: parsers of containers compose / size / convert their items,
+    so an item that is accepted alone may still make the enclosing parse fail in an undocumented way."""
+    name, container, wrap, _ = WRAPPERS[doc['wrapper']]
+    cls = corpus.resolve(container) or core.get_class(container)
+    inner = wire.apply_faults(bytes.fromhex(doc['hex']), doc['faults'], res)
+    raw = wrap(inner)
+    outcome = oracles.probe_c02(cls, raw, res, ('parse_immutable', ), label=name)
+    res.sim_events += 1
+    fired = tuple(sorted(k for k in res.stats if k.startswith('fault.') and res.stats[k]))
+    res.sched_sig = ('wrapped', name, doc['inner'].rsplit('.', 1)[1], fired, outcome)
+    res.nontrivial = bool(fired)
+    res.stats['runs.wrapped'] += 1
+    if outcome == 'ok':
+        res.stats['probe.faulted_item_accepted_inside_container'] += 1
 
 
 def _exec_dgram(doc, res):
@@ -307,6 +419,8 @@ def shrink(doc, sig, budget):
                 break
         if not doc['faults']:
             doc['hex'] = core.shrink_bytes(bytes.fromhex(doc['hex']), lambda c: test_with(hex=c.hex()), budget).hex()
+    elif doc['kind'] == 'wrapped':
+        doc['faults'] = core.ddmin_list(doc['faults'], lambda c: test_with(faults=c), budget)
     elif doc['kind'] == 'stream':
         doc['faults'] = core.ddmin_list(doc['faults'], lambda c: test_with(faults=c), budget)
         doc['records'] = core.ddmin_list(doc['records'], lambda c: bool(c) and test_with(records=c), budget)
@@ -330,7 +444,7 @@ def check(tier, seed):
     batch = core.merge_batches([sweep, fields, explore])
     coverage = core.coverage_from_batch(
         batch, RULE, fault_kinds=wire.FAULT_KINDS,
-        probes=('corrupted_input_accepted', 'second_layer_parse'),
+        probes=('corrupted_input_accepted', 'second_layer_parse', 'faulted_item_accepted_inside_container'),
         components={
             'real': ['parse_immutable / parse_exact_size / parse_mutable of every corpus class',
                      'TlsSubprotocolMessageParser / second-layer parsers', 'compose() (sender)',
